@@ -493,6 +493,10 @@ func (f *frame) callContract(st *State, callee *ssa.Function, cc *Contract, args
 	for _, e := range cc.Ensures {
 		vc.assumeUnder(st.reach, sc.evalBool(e.Expr))
 	}
+	for _, e := range cc.Defines {
+		vc.trusted[name+" (defines: result named by uninterpreted spec functions; determinism assumed)"] = true
+		vc.assumeUnder(st.reach, sc.evalBool(e.Expr))
+	}
 	// an atomic step of a function with guarantee clauses: each clause must
 	// hold between the state before and the state after the step
 	if cc.Atomic && f.isTop && f.c != nil && len(f.c.Guarantees) > 0 {
